@@ -141,6 +141,15 @@ func runC05b(r *mc.Report, e *Env, task int) {
 		d := &mc.DFS{Bound: bound, Shard: task % c05bShards, Of: c05bShards, ShardDepth: 1, Deadline: e.Deadline}
 		var out string
 		d.Body = func(c *mc.Ctx) { out = c05bRun(r, sc, c) }
+		if freeRuns > 0 { // race-detector pass: no exploration, the bodies run freely
+			for i := 0; i < freeRuns; i++ {
+				ctx := mc.Replay(nil, d.Body)
+				_ = ctx
+				r.Exec("free|" + sc.Name + "|" + out)
+			}
+			r.Count("free_running_executions", int64(freeRuns))
+			continue
+		}
 		d.After = func(c *mc.Ctx) {
 			if c.Diverged != "" {
 				r.EngineError("schedule replay diverged in " + sc.Name + ": " + c.Diverged)
